@@ -20,6 +20,7 @@ DOC = {
         'C07.R4': 'Command::spawn/output/status only in transform::execute and Transform::new',
         'C07.R5': 'each creation sink with a TMP path has an owning ADT field whose Drop impl removes that field',
         'C07.R6': 'run_dedupe: run_script only on the dry_run == false edge; log_script on the other',
+        'C07.R8': 'temporary files are gone afterwards also when the run is interrupted: the directory created by Transform::create_temp_dir is removed by destructors, which need the termination signals (SIGINT, SIGTERM) to be handled',
         'C07.R7': 'the transform program is handed the original file (Input::Named) only when `copy` is false; `copy` is cleared only under --no-copy; Transform::new sets copy = ($IN used)',
     },
     'not_decided': 'what the user\'s transform program does to $IN under --no-copy (documented exception); atime updates when O_NOATIME is refused; the kernel',
@@ -74,8 +75,25 @@ def run(ctx):
     r5(ctx, cg, fl)
     r6(ctx)
     r7(ctx)
+    r8(ctx)
     from .common import run_mandatory
     run_mandatory(ctx, 'C07')
+
+
+def r8(ctx):
+    """The temporary directory of a --transform run is removed by destructors only: they do not run when the process is killed by a signal."""
+    rule = 'C07.R8'
+    lib, bn = ctx.lib, ctx.bin
+    ct = lib.body('transform::Transform::create_temp_dir')
+    if ct is None:
+        ctx.missing(rule, 'Transform::create_temp_dir')
+        return
+    units = [lib] + ([bn] if bn else [])
+    handlers = [c for u in units for b in u.bodies.values() if not re.search(r'(^|::)tests?(::|$)', b.path)
+                for c in b.calls(r'^libc::(signal|sigaction|sigwait|sigwaitinfo|pthread_sigmask|signalfd)$|signal_hook|ctrlc::set_handler|nix::sys::signal::')]
+    ctx.check(bool(handlers), rule, ct.path + '|removed-on-signal', ct.where(), 'termination signals are handled, so the temporary directory can be removed',
+              'the per-run directory $TMPDIR/fclones-<uuid> (with the private copies of the files being transformed, and the named pipes) is removed only by `Drop for Transform` / `Input` / `Output`; '
+              'fclones handles no signal, so Ctrl-C or SIGTERM - the normal way a long --transform run ends early - kills the process without running any destructor and the directory stays')
 
 
 def sink_sites(cg, keys):
